@@ -275,6 +275,10 @@ impl Report {
         }
         let wall = self.start.elapsed().as_secs_f64();
         self.coverage.insert("known_findings_matched".into(), json!(known_hit));
+        // listed findings of this property that nothing in this run matched (information for maintenance
+        // of known_findings.jsonl; a tier may simply not reach them)
+        let unmatched: Vec<String> = findings.list.iter().filter(|f| f.status == "known" && f.property == self.property && !by_key.keys().any(|k| wild_match(&f.key, k))).map(|f| f.key.clone()).collect();
+        self.coverage.insert("known_patterns_unmatched_in_this_run".into(), json!(unmatched));
         self.coverage.insert("failing_cases_total".into(), json!(self.failures.len()));
         self.coverage.insert("distinct_failure_keys".into(), json!(by_key.len()));
         let ev = json!({
